@@ -84,6 +84,7 @@ class ExecBase:
         self.pending_loops = {}
         self.top_qual = None
         self.lemmas_seen = set()
+        self.live_stmts = set()
 
     # ------------------------------------------------------------ solver helpers
     def check_sat(self, terms, ms=None):
@@ -132,6 +133,16 @@ class ExecBase:
         ob = Obligation(name, [] if z3.is_true(g) else st.pc, goal, line=line, kind=kind, prop=prop)
         if z3.is_true(g):
             ob.status, ob.backend = "proved", "z3-simplify"   # syntactically valid after simplification
+        else:
+            # every conjunct of the goal literally is a hypothesis of this path
+            have = set(h.get_id() for h in st.pc)
+
+            def present(t):
+                if t.get_id() in have or z3.is_true(t):
+                    return True
+                return z3.is_and(t) and all(present(c) for c in t.children())
+            if present(goal):
+                ob.status, ob.backend = "proved", "z3-simplify"
         self.obligations.append(ob)
         st.assume(goal)
 
